@@ -468,6 +468,8 @@ class Facts:
         self._closures = None
         self._callers = None
         self.inlined = {}
+        self.spliced_fns = {}
+        self.spliced = set()
         self._apply_baseline()
 
     def _apply_baseline(self):
@@ -503,8 +505,9 @@ class Facts:
             for c in f.calls():
                 if c.callee in spliced:
                     still_called.add(c.callee)
+        self.spliced_fns = {}
         for p in spliced - still_called:
-            self.fns.pop(p, None)
+            self.spliced_fns[p] = self.fns.pop(p, None)
             self.fns_all.pop(p, None)
         self.spliced = spliced - still_called
 
